@@ -430,7 +430,7 @@ func (s *sess) settle() {
 
 func (s *sess) inject(ci *conn, fl uint32) bool {
 	epfd := s.g.VerifEpfd(ci.fd % s.np)
-	return vsys.InjectTimeout(epfd, []syscall.EpollEvent{{Fd: int32(ci.fd), Events: fl}}, 5*time.Second)
+	return vsys.InjectTimeout(epfd, []syscall.EpollEvent{{Fd: int32(ci.fd), Events: fl}}, 60*time.Second)
 }
 
 func (s *sess) connState(ci *conn) (bool, string, int, int) {
